@@ -258,9 +258,16 @@ def _to_direction(ctx):
         if q.status == "raise":
             continue
         isq = None
+        infeasible = False
         for t in q.tests():
-            if norm(t.resolved) == f"isinstance({u}, Quantity)":
+            k = norm(t.resolved)
+            if k == f"isinstance({u}, Quantity)":
                 isq = t.extra
+            # a quantity's magnitude is never None: a flag variable holding it is set exactly on the quantity branch
+            if (k == f"{u}.magnitude is None" and t.extra) or (k == f"{u}.magnitude is not None" and not t.extra):
+                infeasible = True
+        if infeasible:
+            continue
         mags = [e.resolved for e in q.events if e.kind == "store" and e.extra == "self.magnitude"]
         units = [norm(e.resolved) for e in q.events if e.kind == "store" and e.extra == "self.baseunits"]
         if isq is None or len(mags) != 1 or len(units) != 1:
